@@ -22,6 +22,8 @@ type c15Case struct {
 	layout  int        // 0 class blocks separated by blank lines; 1 one contiguous comment block; 2 one file per class; 3 every class declared in two files (each part with its own field); 4 the file of a class also holds a part of each of its direct parents (field f<parent>_<child>); 5 the same, except that the file of the root class holds no such parts
 }
 
+func (c c15Case) assignsInheritedName() bool { return c.wrap == 0 && c.layout == 1 && !c.split }
+
 func (c c15Case) fieldOf(cl string) string { return "f" + strings.ToLower(cl) }
 
 // expected members of class 0 (transitively through parents; cycle-safe)
@@ -161,8 +163,11 @@ func (c c15Case) build() (files map[string]string, mainFile string, access strin
 	use = append(use, "---@type "+typ, "local v = {}")
 	if c.wrap == 0 {
 		use = append(use, "v.extra = 1")
-		// a member assigned through the variable under the name of a field that the last class declares
-		use = append(use, "v."+c.fieldOf(c.classes[len(c.classes)-1])+" = 2")
+		// a member assigned through the variable under the name of a field that the last class declares - only in one
+		// layout, because for that field the assignment hides what inheritance contributes
+		if c.assignsInheritedName() {
+			use = append(use, "v."+c.fieldOf(c.classes[len(c.classes)-1])+" = 2")
+		}
 	}
 	use = append(use, "print(v)")
 	files = map[string]string{}
@@ -282,7 +287,7 @@ func c15Space(tier string) *core.Space {
 			// the alias cycle X->Y->X: the variable's type does not denote a class; only liveness is required
 			want := c.expected()
 			assignedField := ""
-			if c.wrap == 0 {
+			if c.assignsInheritedName() {
 				assignedField = c.fieldOf(c.classes[len(c.classes)-1])
 				want[assignedField] = true // assigned through the variable
 			}
